@@ -10,7 +10,7 @@ from ..cfg import cfg_of
 from ..flow import ERROR
 from ..model import AnchorError, UnknownIdiom, dotted, short
 from .appflow import ASGI_CALL, WSGI_CALL, AppFlow
-from .common import (find_calls, is_self_attr, method_call, nodes_within, single, strip_await, walk_self)
+from .common import (find_calls, implied, is_self_attr, method_call, nodes_within, single, strip_await, walk_self)
 
 
 def _region(af: AppFlow):
@@ -321,6 +321,45 @@ def r3_stacks(run):
             eff = {'tail': 'head', 'head': 'tail'}.get(kind, kind) if rev else kind
             run.check(eff == pol, 'prepare_middleware: %s stack is %s-inserted (%s methods run %s)' % (
                 role, pol, role, 'bottom-up' if pol == 'head' else 'top-down'), f, c)
+    # mode separation: the static response stack is filled only in independent
+    # mode, the (request, response) pairs only in dependent mode -- both
+    # __call__s run `static_stack or per_request_stack`, so a non-empty static
+    # stack in dependent mode would disable the per-request (dependent) one
+    cfg = cfg_of(f, p)
+    run.use_cfg(cfg)
+    params = f.params()
+    if len(params) < 2:
+        raise AnchorError('prepare_middleware: independent_middleware parameter not found')
+    mode = params[1]
+
+    def is_mode(e):
+        return isinstance(e, ast.Name) and e.id == mode
+
+    mode_edges = {True: [], False: []}
+    for n in cfg.live_nodes():
+        if n.kind == 'test':
+            for (y, l) in cfg.succ[n.id]:
+                if l in ('T', 'F'):
+                    r = implied(n.ast, l == 'T', is_mode)
+                    if r is not None:
+                        mode_edges[r].append((n.id, y, l))
+    if not mode_edges[True] or not mode_edges[False]:
+        raise AnchorError('prepare_middleware: no branch on the independent_middleware parameter')
+    resp_name = roles[2][0]
+    req_name = roles[0][0]
+    for kind, c in _insertions(f, resp_name):
+        nids = [n.id for n in cfg.live_nodes() if any(x is c for x in n.calls())]
+        ok = bool(nids) and all(any(flow.dominated_by_edge(cfg, nid, e) for e in mode_edges[True]) for nid in nids)
+        run.check(ok, 'prepare_middleware: the static response stack is filled only in independent mode '
+                      '(in dependent mode the per-request stack must be the one that runs)', f, c,
+                  runtime_witness='independent_middleware=False and a process_request that raises: later components\' process_response still run')
+    for kind, c in _insertions(f, req_name):
+        is_pair = bool(c.args) and isinstance(c.args[-1], ast.Tuple)
+        nids = [n.id for n in cfg.live_nodes() if any(x is c for x in n.calls())]
+        want = not is_pair
+        ok = bool(nids) and all(any(flow.dominated_by_edge(cfg, nid, e) for e in mode_edges[want]) for nid in nids)
+        run.check(ok, 'prepare_middleware: request stack holds %s only in %s mode' % (
+            '(request, response) pairs' if is_pair else 'bare request methods', 'dependent' if is_pair else 'independent'), f, c)
     # ws variant: request/resource stacks tail
     if p.has_func('falcon.app_helpers.prepare_middleware_ws'):
         g = p.func('falcon.app_helpers.prepare_middleware_ws')
